@@ -13,6 +13,11 @@ RULE = ('cases: (separator, escape character, column types, rows) pushed through
         '-> csv.load ("mem"), through dump_to_file -> load_from_file on real files incl. files larger than the '
         '64 KiB read size ("file"), plus a malformed stream of arbitrary lines fed to csv.load (model comparison '
         'only). Exhaustive strings over {a, sep, quote, escape} in 1-3 columns, random typed rows of 1..8 columns. '
+        'ALIGNED files ("file" with field more; NON-ASCII strings): blocks of random rows (strings with 2- and '
+        '4-byte UTF-8 characters), then an ASCII pad row sized so that the k-th byte of a 2-, 3- or 4-byte '
+        'character of the next row falls exactly on a multiple of 65536 BYTES of the file, for every k strictly '
+        'inside the character (1-of-2, 1/2-of-3, 1/2/3-of-4) and the two character edges, at 1-3 successive '
+        '64 KiB boundaries; the byte position reached is measured on the real file (straddle) and reported. '
         'non-trivial = a round-trip case with a string containing separator/quote/escape character or a float '
         'column; distinct = distinct case JSON')
 TRUSTED = [
@@ -73,6 +78,18 @@ def dec(e):
 
 def mk(kind, sep, esc, types, rows, repeat=1):
     return {'kind': kind, 'sep': sep, 'esc': esc, 'types': list(types), 'rows': rows, 'repeat': repeat}
+
+
+def segments(case):
+    """the rows of a case as (block of rows, repetitions) segments: rows x repeat, then the optional `more`"""
+    return [[case['rows'], case['repeat']]] + [list(sg) for sg in case.get('more', [])]
+
+
+def all_rows(case):
+    out = []
+    for b, k in segments(case):
+        out += b * k
+    return out
 
 
 # --------------------------------------------------------------------------------------------------
@@ -209,6 +226,69 @@ def gen_exact_file(rng, total):
     return c
 
 
+def ref_field(v, esc):
+    """how dump writes one value (reference rendering, used to SIZE the pad rows only)"""
+    if v[0] == 's':
+        return QUOTE + v[1].replace(esc, esc + esc).replace(QUOTE, esc + QUOTE) + QUOTE
+    return str(dec(v))
+
+
+def ref_line(row, sep, esc):
+    return sep.join(ref_field(v, esc) for v in row) + '\n'
+
+
+BLOCK = 64 * 1024
+ALIGN_CHARS = ['\xe9', '\xdf', '\u20ac', '\u65e5', '\U0001f600', '\U00010000']
+
+
+def alignments(interior_only=False):
+    """(character, k): k bytes of the character's UTF-8 sequence lie before the 64 KiB byte boundary"""
+    out = []
+    for ch in ALIGN_CHARS:
+        n = len(ch.encode('utf-8'))
+        out += [(ch, k) for k in (range(1, n) if interior_only else range(0, n + 1))]
+    return out
+
+
+def gen_aligned_file(rng, ch, k, nb):
+    """filler rows with non-ASCII strings, and before every one of the first nb multiples of 65536 bytes an ASCII
+    pad row + a target row placed so that exactly k bytes of the target's character `ch` precede the boundary"""
+    sep, esc = rnd_conf(rng, 0.1)
+    ncol = rng.randint(1, 4)
+    types = [rng.choice(['int', 'bool', 'str', 'str', 'float']) for _ in range(ncol)]
+    if 'str' not in types:
+        types[rng.randrange(ncol)] = 'str'
+    t = types.index('str')
+    bsize = lambda rows: sum(len(ref_line(r, sep, esc).encode('utf-8')) for r in rows)
+    filler = []
+    for _ in range(rng.randint(6, 20)):
+        r = [rnd_value(rng, ty, sep, esc) for ty in types]
+        r[t] = ['s', rnd_str(rng, sep, esc) + rng.choice(['\xe9', '\U0001f600', '\u20ac', 'a', ''])]
+        filler.append(r)
+    fb = bsize(filler)
+    pos = len((sep.join('c%d' % i for i in range(ncol)) + '\n').encode('utf-8'))
+    segs = []
+    for j in range(1, nb + 1):
+        target = [rnd_value(rng, ty, sep, esc) for ty in types]
+        target[t] = ['s', rng.choice(['', 'a', sep, QUOTE, esc, 'ab ', esc + QUOTE]) + ch + rnd_str(rng, sep, esc)]
+        pad = [rnd_value(rng, ty, sep, esc) for ty in types]
+        pad[t] = ['s', '']
+        tl = ref_line(target, sep, esc)
+        before = len(tl[:tl.index(ch)].encode('utf-8'))          # columns before a str column hold no such character
+        room = j * BLOCK - k - pos - before - bsize([pad])
+        if room < 0:
+            break
+        reps, fill = divmod(room, fb)
+        pad[t] = ['s', 'a' * fill]
+        segs += [[filler, reps], [[pad, target], 1]]
+        pos += reps * fb + bsize([pad, target])
+    segs.append([filler, rng.randint(1, 3)])
+    c = mk('file', sep, esc, types, segs[0][0], segs[0][1])
+    c['more'] = segs[1:]
+    c['align'] = [ord(ch), k, nb]
+    return c
+
+
 def gen_parse(rng):
     sep, esc = rnd_conf(rng, 0.1)
     ncol = rng.randint(1, 3)
@@ -278,6 +358,12 @@ def generate(rng, tier):
     rng.shuffle(cases)
     # (c) real files, spread over the shards
     fcases = [gen_file(rng, t) for t in files] + [gen_exact_file(rng, t) for t in exact]
+    # (c') non-ASCII files with a multi-byte character across the 64 KiB byte boundaries, every alignment
+    if tier == 'quick':
+        al = alignments(True) + rng.sample([a for a in alignments() if a not in alignments(True)], 3)
+        fcases += [gen_aligned_file(rng, ch, k, rng.choice([1, 1, 2])) for ch, k in al]
+    else:
+        fcases += [gen_aligned_file(rng, ch, k, nb) for ch, k in alignments() for nb in (1, 2, 3)]
     step = max(1, len(cases) // (len(fcases) + 1))
     for i, fc in enumerate(fcases):
         cases.insert(min(len(cases), (i + 1) * step + i), fc)
@@ -295,6 +381,23 @@ def collect(obs):
     obs.subscribe(on_next=out.append, on_error=lambda e: end.append('error:' + type(e).__name__),
                   on_completed=lambda: end.append('completed'))
     return out, (end[0] if end else 'pending')
+
+
+def segs_multi(items, shape, head, join):
+    """run-length form along the segments of the case: items = head + for each (n, k) of shape k times the same
+    n items; None when the sequence does not have that shape"""
+    if len(items) != head + sum(n * k for n, k in shape):
+        return None
+    out = [[join(items[:head]), 1]] if head else []
+    pos = head
+    for n, k in shape:
+        blk = items[pos:pos + n]
+        if items[pos:pos + n * k] != blk * k:
+            return None
+        if n * k:
+            out.append([join(blk), k])
+        pos += n * k
+    return out
 
 
 def segs(seq, k, head=0):
@@ -319,7 +422,7 @@ def run_impl(case):
         rows, end = collect(rx.from_(case['lines']).pipe(csv.load(parser)))
         return {'rows': [[enc(v) for v in r] for r in rows], 'end': end}
     X = namedtuple('X', cols)
-    items = [X(*[dec(v) for v in r]) for r in case['rows']] * case['repeat']
+    items = [X(*[dec(v) for v in r]) for r in all_rows(case)]
     if case['kind'] == 'mem':
         lines, dend = collect(rx.from_(items).pipe(csv.dump(separator=sep, escapechar=esc)))
         rows, end = collect(rx.from_(lines).pipe(line.unframe(), csv.load(parser)))
@@ -333,11 +436,28 @@ def run_impl(case):
     chunks, _ = collect(file.read(fn, size=64 * 1024, encoding='utf-8'))
     rows, end = collect(csv.load_from_file(fn, parser, encoding='utf-8'))
     size = os.path.getsize(fn)
+    with open(fn, 'rb') as f:
+        data = f.read()
     os.remove(fn)
+    straddle = []       # for every multiple of 64 KiB bytes: bytes of an unfinished UTF-8 sequence before it
+    for off in range(BLOCK, len(data), BLOCK):
+        n = 0
+        while n < 4 and off - n > 0 and data[off - n] & 0xC0 == 0x80:
+            n += 1
+        straddle.append(n)
     rows = [[enc(v) for v in r] for r in rows]
     head = content.index('\n') + 1 if '\n' in content else 0
+    if case.get('more'):
+        shape = [(len(b), k) for b, k in segments(case)]
+        lines = [l + '\n' for l in content.split('\n')[:-1]] if content.endswith('\n') else None
+        cseg = segs_multi(lines, shape, 1, ''.join) if lines else None
+        rseg = segs_multi(rows, shape, 0, list)
+        return {'content': cseg or [[content, 1]], 'dump_end': dend, 'lens': [len(c) for c in chunks],
+                'rows': rseg or ([[rows, 1]] if rows else []), 'end': end, 'bytes': size, 'chars': len(content),
+                'straddle': straddle}
     return {'content': segs(content, case['repeat'], head), 'dump_end': dend, 'lens': [len(c) for c in chunks],
-            'rows': segs(rows, case['repeat']), 'end': end, 'bytes': size, 'chars': len(content)}
+            'rows': segs(rows, case['repeat']), 'end': end, 'bytes': size, 'chars': len(content),
+            'straddle': straddle}
 
 
 def expand(sg):
@@ -355,7 +475,7 @@ def oracle(case, obs):
         return None
     if 'raised' in obs:
         return {'sig': 'csv:raised', 'what': 'dump/load raised %s: %s' % (obs['raised'], obs.get('msg'))}
-    want = case['rows'] * case['repeat']
+    want = all_rows(case)
     got = expand(obs['rows']) if case['kind'] == 'file' else obs['rows']
     esc = case['esc']
     bad_row, only_float = None, True
@@ -376,15 +496,21 @@ def oracle(case, obs):
                 % (len(got) - len(want), obs['end'], obs.get('dump_end'))}
     w = want[bad_row]
     g = got[bad_row] if bad_row < len(got) else None
-    if only_float:
+    if str(obs['end']).startswith('error:Unicode'):
+        sig = 'csv:file-decode-error'
+    elif only_float:
         sig = 'csv:parse_decimal'
     elif any(v[0] == 's' and v[1].endswith(esc) for v in w):
         sig = 'csv:merge-escape-parity'
     else:
         sig = 'csv:roundtrip'
-    return {'sig': sig, 'what': 'row %d written %r (sep %r esc %r) read back %r end=%s'
-            % (bad_row, [dec(v) for v in w], case['sep'], esc, None if g is None else [dec(v) if v[0] != '?' else v for v in g],
-               obs['end'])}
+    what = 'row %d written %r (sep %r esc %r) read back %r end=%s' % (
+        bad_row, [dec(v) if v[0] != 's' else v[1][:60] for v in w], case['sep'], esc,
+        None if g is None else [dec(v) if v[0] not in '?s' else v[1][:60] for v in g], obs['end'])
+    if case['kind'] == 'file':
+        what += '; file of %s bytes, %d rows written, %d read back, unfinished UTF-8 bytes before the 64 KiB byte ' \
+                'boundaries: %s' % (obs.get('bytes'), len(want), len(got), obs.get('straddle'))
+    return {'sig': sig, 'what': what}
 
 
 def _special(case, v):
@@ -394,7 +520,7 @@ def _special(case, v):
 def nontrivial(case, obs):
     if case['kind'] == 'parse' or not case['rows']:
         return False
-    return 'float' in case['types'] or any(_special(case, v) for r in case['rows'] for v in r)
+    return 'float' in case['types'] or any(_special(case, v) for b, k in segments(case) for r in b for v in r)
 
 
 def describe(cases, obs):
@@ -402,7 +528,8 @@ def describe(cases, obs):
          'fields': {'int': 0, 'float': 0, 'bool': 0, 'str': 0}, 'str_with_sep': 0, 'str_with_quote': 0,
          'str_with_esc': 0, 'str_ending_with_esc': 0, 'str_empty': 0, 'str_blank_edge': 0, 'rows_needing_merge': 0,
          'float_negative': 0, 'float_negzero': 0, 'int_negative': 0, 'file_chars': [], 'files_over_64k': 0,
-         'max_chunks_per_file': 0}
+         'max_chunks_per_file': 0, 'file_bytes_max': 0, 'files_with_non_ascii': 0, 'byte_boundaries_64k': 0,
+         'byte_boundaries_inside_multibyte_char': {}, 'files_with_boundary_inside_char': 0}
     for c, o in zip(cases, obs):
         d[c['kind']] += 1
         d['separators'][repr(c['sep'])] = d['separators'].get(repr(c['sep']), 0) + 1
@@ -410,12 +537,22 @@ def describe(cases, obs):
         d['columns'][str(len(c['types']))] = d['columns'].get(str(len(c['types'])), 0) + 1
         if c['kind'] == 'parse':
             continue
-        d['rows'] += len(c['rows']) * c['repeat']
+        d['rows'] += sum(len(b) * k for b, k in segments(c))
         if c['kind'] == 'file' and isinstance(o, dict) and 'chars' in o:
             d['file_chars'].append(o['chars'])
             d['files_over_64k'] += o['chars'] > 65536
             d['max_chunks_per_file'] = max(d['max_chunks_per_file'], len(o['lens']))
-        for r in c['rows']:
+            d['file_bytes_max'] = max(d['file_bytes_max'], o['bytes'])
+            d['files_with_non_ascii'] += o['bytes'] > o['chars']
+            d['byte_boundaries_64k'] += len(o.get('straddle', []))
+            d['files_with_boundary_inside_char'] += any(x > 0 for x in o.get('straddle', []))
+            for x in o.get('straddle', []):
+                if x > 0:
+                    key = '%d-bytes-before' % x
+                    if c.get('align'):
+                        key = '%d-of-%d-bytes-before' % (x, len(chr(c['align'][0]).encode('utf-8')))
+                    d['byte_boundaries_inside_multibyte_char'][key] = d['byte_boundaries_inside_multibyte_char'].get(key, 0) + 1
+        for r in [r for b, k in segments(c) for r in b]:
             merge = False
             for t, v in zip(c['types'], r):
                 d['fields'][t] += 1
@@ -476,7 +613,7 @@ def c_rows(rows):
 def c_tabs(case):
     """str / int / float of CPython on the numbers of the case: the trusted oracle of the number layer"""
     ints, floats = {}, {}
-    for r in case.get('rows', []):
+    for r in ([r for b, k in segments(case) for r in b] if 'rows' in case else []):
         for v in r:
             if v[0] == 'i':
                 ints[v[1]] = str(v[1])
@@ -512,7 +649,7 @@ def coq_term(case, obs):
                                                   c_list([zs(l) for l in obs['lines']]), c_rows(obs['rows']), done)
         return 'CFile %s %s %s %s %s %s %s %s' % (
             c_head(case), c_names(case), c_tabs(case),
-            c_list(['(%s, %s)' % (c_rows(case['rows']), c_N(case['repeat']))]),
+            c_list(['(%s, %s)' % (c_rows(b), c_N(k)) for b, k in segments(case)]),
             c_list(['(%s, %s)' % (zs(b), c_N(k)) for b, k in obs['content']]),
             c_list([c_N(n) for n in obs['lens']]),
             c_list(['(%s, %s)' % (c_rows(b), c_N(k)) for b, k in obs['rows']]), done)
@@ -534,7 +671,7 @@ def neighbours(case, rng):
     if case['kind'] == 'parse':
         return []
     out = []
-    for r in case['rows'][:40]:
+    for r in all_rows(case)[:40] + [r for b, k in case.get('more', []) if k == 1 for r in b]:
         out.append(mk('mem', case['sep'], case['esc'], case['types'], [r]))
         for t, v in zip(case['types'], r):
             out.append(mk('mem', case['sep'], case['esc'], [t], [[v]]))
